@@ -332,6 +332,11 @@ func indexHeader(
 						return err
 					}
 
+					// The content stays in place, so its size does too (headers without the size record would reset it to 0)
+					if _, ok := hdr.PAXRecords[records.STFSRecordUncompressedSize]; !ok {
+						h.Size = oldHdr.Size
+					}
+
 					newHdr = h
 
 					if err := metadataPersister.UpdateHeaderMetadata(context.Background(), converters.DBHeaderToConfigHeader(newHdr)); err != nil {
